@@ -34,8 +34,8 @@ type AlphaOpts struct {
 	BindOps       []Action // static list of binding operations (bind/update/disable/enable/refund)
 	ModOps        []string // mpause,mstart,mkill
 	ModUpdates    []CtxUpdate
-	ConsumerOnMod bool // consumer messages on module-owned contexts (must fail)
-	ShortSigners  bool // providers whose address is not 20 bytes answer their requests too (handler level; C13 quantifies over provider addresses of every length)
+	ConsumerOnMod bool       // consumer messages on module-owned contexts (must fail)
+	ShortSigners  bool       // providers whose address is not 20 bytes answer their requests too (handler level; C13 quantifies over provider addresses of every length)
 	ParamChanges  []ParamSet // governance changes the module parameters (applied through the keeper, as the params module does)
 }
 
@@ -121,7 +121,16 @@ func lifeAlpha(o AlphaOpts) func(sc *Scenario, v *View) []Action {
 				continue // already in force
 			}
 			out = append(out, Action{Name: "gov(" + p.Name + ")", Kind: "gov", Tmpl: -1, Signer: XX,
-				Mod: func(ctx sdk.Context, k servicekeeperT) error { k.SetParams(ctx, p.Params()); return nil }})
+				Mod: func(ctx sdk.Context, k servicekeeperT) (err error) {
+					// the parameter store refuses a value by panicking (as it does for a proposal): the change does not happen
+					defer func() {
+						if r := recover(); r != nil {
+							err = fmt.Errorf("parameter change refused: %v", r)
+						}
+					}()
+					k.SetParams(ctx, p.Params())
+					return nil
+				}})
 		}
 		return out
 	}
@@ -150,12 +159,12 @@ func lifeFunds(c1, c2 int64) []Funding {
 }
 
 var (
-	tOne    = Template{Name: "one", Consumer: "C1", Service: "a", Providers: []string{"P1", "P2"}, Cap: 5, Timeout: 1}
-	tRep2   = Template{Name: "rep2", Consumer: "C1", Service: "a", Providers: []string{"P1", "P2"}, Cap: 5, Timeout: 1, Repeated: true, Freq: 1, Total: 2}
-	tInf    = Template{Name: "inf", Consumer: "C1", Service: "a", Providers: []string{"P1"}, Cap: 5, Timeout: 1, Repeated: true, Freq: 2, Total: -1}
-	tPoor   = Template{Name: "poor", Consumer: "C2", Service: "a", Providers: []string{"P1", "P2"}, Cap: 5, Timeout: 1, Repeated: true, Freq: 1, Total: 2}
-	tSuper  = Template{Name: "super", Consumer: "C2", Service: "a", Providers: []string{"P1"}, Cap: 5, Timeout: 1, Super: true}
-	tLong   = Template{Name: "long", Consumer: "C1", Service: "a", Providers: []string{"P2"}, Cap: 5, Timeout: 2, Repeated: true, Freq: 2, Total: 2}
+	tOne   = Template{Name: "one", Consumer: "C1", Service: "a", Providers: []string{"P1", "P2"}, Cap: 5, Timeout: 1}
+	tRep2  = Template{Name: "rep2", Consumer: "C1", Service: "a", Providers: []string{"P1", "P2"}, Cap: 5, Timeout: 1, Repeated: true, Freq: 1, Total: 2}
+	tInf   = Template{Name: "inf", Consumer: "C1", Service: "a", Providers: []string{"P1"}, Cap: 5, Timeout: 1, Repeated: true, Freq: 2, Total: -1}
+	tPoor  = Template{Name: "poor", Consumer: "C2", Service: "a", Providers: []string{"P1", "P2"}, Cap: 5, Timeout: 1, Repeated: true, Freq: 1, Total: 2}
+	tSuper = Template{Name: "super", Consumer: "C2", Service: "a", Providers: []string{"P1"}, Cap: 5, Timeout: 1, Super: true}
+	tLong  = Template{Name: "long", Consumer: "C1", Service: "a", Providers: []string{"P2"}, Cap: 5, Timeout: 2, Repeated: true, Freq: 2, Total: 2}
 )
 
 var (
@@ -321,6 +330,7 @@ func bindOpsNames() []Action {
 	return []Action{
 		actDefine("a", "AU"), actDefine("ab", "AU"), actDefine("a", "XX"),
 		actDefine("Ab", "AU"), actDefine("Ab", "XX"), // names are case sensitive; a second "Ab" must be rejected like any other
+		actDefineBytes("u8", "AU"),
 		actBind("a", "P1", "O1", 10, "p1", 1),
 		actBind("ab", "P1", "O1", 10, "p2v", 1),
 		actBind("ab", "P1", "O2", 10, "p1", 1),
@@ -437,8 +447,8 @@ func scFeesLengths(ps ParamSet, depth, blocks, msgs int) *Scenario {
 
 // scHuge: prices, deposits, fee caps and balances beyond int64 (2^63 and 2^100 base units).
 func scHuge(ps ParamSet, depth, blocks, msgs int) *Scenario {
-	const p63, d63 = "9223372036854775808", "18446744073709551616"                                 // 2^63, 2^64 (= price x multiple 2)
-	const p100, d100 = "1267650600228229401496703205376", "2535301200456458802993406410752"        // 2^100, 2^101
+	const p63, d63 = "9223372036854775808", "18446744073709551616"                          // 2^63, 2^64 (= price x multiple 2)
+	const p100, d100 = "1267650600228229401496703205376", "2535301200456458802993406410752" // 2^100, 2^101
 	sc := &Scenario{
 		Name: "S-HUGE", Params: ps,
 		Funds: []Funding{{O1, -36}, {O2, -36}, {C1, -36}, {C2, 5}}, Extra: allAccounts, // 10^36 each
